@@ -2559,3 +2559,77 @@ Section Sites.
       eapply chain_inv_core; [|exact H]. repeat split.
   Qed.
 End Sites.
+
+Lemma blk_eff_not_confirmed sc t h x hh : memo_ok t -> blk_eff sc t h x <> ConfirmedIn hh.
+Proof.
+  intros Hm. unfold blk_eff, eff_status. cbn [car_memo set_car_height].
+  destruct (aget (car_memo t) x) as [r|] eqn:E; [intros ->; exact (Hm _ _ E)|].
+  destruct (send_status_cases (set_car_height t h) (snd (script_get sc x))) as [Hs|[Hs|[c Hs]]]; rewrite Hs; discriminate.
+Qed.
+
+Lemma heights_no_underflow txids t :
+  heights_ok t -> existsb (underflows txids (gk_height t) (reorged t)) (db_trks t) = false.
+Proof.
+  intros HJ. destruct (existsb _ _) eqn:E; [|reflexivity]. exfalso.
+  apply existsb_exists in E. destruct E as [k [Hk Hu]]. apply underflows_iff in Hu.
+  destruct Hu as [_ [Hr [Hc Hlt]]]. specialize (HJ k Hk Hc Hr). lia.
+Qed.
+
+Section Sites2.
+  Context (S : site -> Prop) (HSite : forall s, s <> S_r_confirmations_underflow -> S s).
+
+  Lemma r_block_connected_sites le sc t b h :
+    Inv t -> existsb (underflows (keys_of (ib_data b)) h (reorged t)) (db_trks t) = false ->
+    pres2 (fun _ => True) S (r_block_connected le sc t b h).
+  Proof.
+    intros HI Eu. unfold r_block_connected. change (r_index (set_car_height t h)) with (r_index t).
+    destruct (ti_update (r_index t) b) as [idx|]; [|apply HSite; discriminate].
+    assert (HI1 : Inv (set_r_index (set_car_height t h) idx)) by (eapply inv_frame; [|exact HI]; repeat split).
+    pose proof (check_conf_loop_spec le (keys_of (ib_data b)) h _ [] HI1) as Hcc.
+    change (reorged (set_r_index (set_car_height t h) idx)) with (reorged t) in Hcc.
+    change (db_trks (set_r_index (set_car_height t h) idx)) with (db_trks t) in *.
+    rewrite Eu in Hcc. rewrite Hcc. cbn [bind].
+    apply pres2_bind.
+    { destruct ([] ++ completed_list _ _ _); [exact I|]. unfold gk_delete_appointments.
+      apply pres2_bind; [apply refund_loop_sites; exact HSite|]. intros; exact I. }
+    intros _ t3 _. apply pres2_bind.
+    { destruct (reorged t3); [exact I|apply reorged_loop_sites; exact HSite]. }
+    intros rej1 t4 _. destruct (u32_sub h _); [|apply HSite; discriminate].
+    apply pres2_bind; [apply stale_loop_sites; exact HSite|]. intros rej2 t5 _.
+    apply pres2_bind; [destruct (rej1 ++ rej2); exact I|]. intros; exact I.
+  Qed.
+
+  Lemma r_block_connected_chain le sc t b h :
+    Inv t -> chain_inv t -> gk_height t = h -> (ti_tip (r_index t) + 1 <= Z.of_N h)%Z ->
+    ~ In (ib_hash b) (ti_blocks (r_index t)) ->
+    pres2 chain_inv S (r_block_connected le sc t b h).
+  Proof.
+    intros HI [C1 C2 C3 C4] Hh Htip Hfresh.
+    pose proof (heights_no_underflow (keys_of (ib_data b)) t C1) as Eu. rewrite Hh in Eu.
+    pose proof (r_block_connected_sites le sc t b h HI Eu) as Hsites.
+    destruct (r_block_connected le sc t b h) as [[] t'|s t''] eqn:E; [|exact Hsites]. cbn [pres2].
+    destruct (r_block_connected_facts le sc t b h t' HI E) as [lim [t5 F]].
+    assert (HI' : Inv t').
+    { pose proof (r_block_connected_pres Inv (sb_wr _ (sa_block _ inv_stable)) le sc t b h HI) as Hp. rewrite E in Hp. exact Hp. }
+    destruct (rf_heights _ _ _ _ _ _ _ F) as [Hgh _].
+    destruct (idx_wf_update _ _ _ C4 Hfresh (rf_index _ _ _ _ _ _ _ F)) as [Hwf [Htip' _]].
+    constructor.
+    - intros k' Hk' Hc' _. rewrite Hgh, Hh.
+      pose proof (find_trk_In_NoDup _ k' (inv_trks_nodup _ HI') Hk') as Hfk.
+      rewrite (rf_rows _ _ _ _ _ _ _ F) in Hfk.
+      destruct (find_trk (db_trks t) (trk_uuid k')) as [k|] eqn:Ek; [|discriminate].
+      destruct (find_trk_Some _ _ _ Ek) as [Hkin _]. unfold fate in Hfk.
+      destruct (memN (t_penalty k) (keys_of (ib_data b))); [inversion Hfk; cbn [t_height restamp]; lia|].
+      destruct (mem_uuid (trk_uuid k) (reorged t)) eqn:Er.
+      { destruct (trk_rejected _ k); [discriminate|]. inversion Hfk. subst k'. discriminate. }
+      destruct (t_conf k) eqn:Ec.
+      { destruct (N.eqb _ _); [discriminate|]. inversion Hfk. subst k'. rewrite <- Hh. apply C1; assumption. }
+      destruct (N.leb (t_height k) lim); [|inversion Hfk; subst k'; congruence].
+      destruct (status_rejected _); [discriminate|]. inversion Hfk. subst k'. unfold stale_upd in Hc'.
+      destruct (blk_eff sc t h (t_penalty k)) eqn:Ee; cbn [t_conf restamp] in Hc'; try congruence.
+      exfalso. exact (blk_eff_not_confirmed sc t h _ _ C3 Ee).
+    - rewrite Hgh, Hh, Htip'. exact Htip.
+    - intros x hh. rewrite (rf_memo _ _ _ _ _ _ _ F). discriminate.
+    - exact Hwf.
+  Qed.
+End Sites2.
